@@ -348,6 +348,15 @@ for _p, _post in (('C01', None), ('C03', None), ('C04', None),
                               NESTED_RULE, **_extra))
 OVERLAP_RULE = ('targets above / below other targets of the same build '
                 '(one of the two calls failing), over foreign files')
+CAMPAIGNS['C07'].append(camp(
+    'c07-across-builds', 'C07',
+    dict(IDENTITY_HEAVY, p_stepargs=0.6, w_dup=6, n_steps=(3, 6),
+         p_mutate_step=0.0, p_chdir_step=0.1, p_spelling=0.3),
+    'the same call site issued in consecutive builds with arguments from '
+    'families of JSON-equal and near-miss values (1/1.0/True, None vs '
+    'missing key, tuple vs list, key order, big ints, non-string keys): '
+    'served from the cache iff the keys are JSON-equal',
+    post='tag_all:C07'))
 CAMPAIGNS['C03'].append(camp('c03-overlap', 'C03', OVERLAP, OVERLAP_RULE))
 CAMPAIGNS['C03'].append(camp(
     'c03-overlap-crash', 'C03', OVERLAP, OVERLAP_RULE, mode='crash-sweep',
